@@ -20,7 +20,18 @@ there yet).  The failed access must hand an exception to its caller and must
 leave the handle uncached.
 
 A history case is ``(value, word)`` (loader ``ok``, the form of older replay
-records) or ``(value, loader, word)``.
+records), ``(value, loader, word)`` or ``(value, loader, word, shape)``.
+
+Map shape ``layered`` (parts ``fixpoint-layered/...``, ``histories-layered``):
+the map is filled by a real ``DirectoryResourcePopulator`` (nesting of
+conflicting handles on) applied twice to a directory holding the one file
+``r/k``, so that two counting handles live under the one name: the newer one
+is the resource ``r/k`` (every access path by name must reach it and it
+alone), the older one is shadowed and is driven by two more operations
+(``shadow_call``, ``shadow_clear``, called on the object the populator rule
+handed out).  Each of the two handles has its own epochs; an operation that
+addresses one of them never loads the other one nor delivers an object the
+other one loaded.
 
 Loaded value ``finaliser``: a resource whose ``__del__`` looks at its own
 handle (``if handle.cached: handle()``).  The harness keeps weak references
@@ -33,8 +44,16 @@ Parts ``loop-fixpoint/<loop>/<n>`` and ``loop-histories/<n>``: a real
 ``SimpleLoop`` (dummy time function, never started) / a bare ``Loop``
 subclass over n counting handles whose ``load()`` returns a fresh real
 ``World``; operations ``loop.switch(h_i, clear_current, clear_next)`` for all
-four flag combinations, ``h_i()``, ``h_i.clear()``.  A loop history case is
-``(loop, n, word)`` over the letters of ``loop_letters(n)``.
+four flag combinations, ``h_i()``, ``h_i.clear()`` and, on the SimpleLoop
+(the loop that catches ``SwitchWorld``), the switch *request*
+``desper.switch(h_i, clear_current, clear_next, from_world=
+loop.current_world)`` whose ``SwitchWorld`` the harness hands to
+``loop.switch`` exactly like the ``except`` clause of ``SimpleLoop.loop``.  A
+request may clear and load its target more than once (``desper.switch`` and
+``Loop.switch`` share the work), so the handles note their ``load()`` /
+``clear()`` calls in order and the request is judged on that order.  A loop
+history case is ``(loop, n, word)`` over the letters of
+``loop_letters(n, loop)``.
 
 The driver reads handles through ``cached``, ``__call__``, ``clear()``,
 ``load()`` and the map / static-map / world-file / loop access paths only;
@@ -95,18 +114,37 @@ RULE = ('Operations: h(), m["r/k"], m["r"]["k"], s.r.k, s["r"]["k"], '
         'static attribute access, clear of an uncached handle, two clears in '
         'a row, load that raises, access after a failed load, reference '
         'from a world file, finaliser running inside clear() ...).  '
+        'Map shape "layered" (parts "fixpoint-layered/<value>[/raise_first]" '
+        '(E1, to fixpoint) and "histories-layered": every one of the 11^D '
+        'sequences, D = 3 quick / 4 thorough, per value and loader): the '
+        'map is filled by a real DirectoryResourcePopulator('
+        'nest_on_conflict=True) with the rule r -> counting handle, applied '
+        'twice to a directory holding the single file r/k: two counting '
+        'handles under the one name r/k, the second one is the resource '
+        'r/k, the first one is shadowed; world handles and the static '
+        'snapshot as before; two more operations shadow() and '
+        'shadow.clear() on the shadowed handle.  Both handles carry their '
+        'own model (states merged on both models + object graph); after '
+        'every operation additionally: load() of the handle that was not '
+        'addressed did not run and no delivered object is one it loaded, '
+        'cached of both handles == accessed since its own last clear.  '
         'Loop parts: a real SimpleLoop built with a dummy time function '
         '(never started) and a bare Loop subclass (only loop() supplied), n '
         'counting handles whose load() returns a fresh World(); operations '
         'h_i(), h_i.clear() and loop.switch(h_i, clear_current, clear_next) '
-        'for the four flag combinations (4n + 2n letters).  Parts '
+        'for the four flag combinations (4n + 2n letters); on the '
+        'SimpleLoop 4n more letters: the switch request desper.switch(h_i, '
+        'clear_current, clear_next, from_world=loop.current_world) whose '
+        'SwitchWorld is handed to loop.switch(ex.world_handle, '
+        'ex.clear_current, ex.clear_next) as SimpleLoop.loop does.  Parts '
         '"loop-fixpoint/<loop>/<n>" (E1, n = 1, 2; thorough also 3): '
         'breadth-first search to fixpoint, states merged on (handle last '
         'switched to, was it cleared since, per handle: accessed since its '
         'last clear / had an earlier epoch) + generic object graph of loop, '
         'handles and worlds.  Parts "loop-histories/<n>" (no merging): every '
-        'sequence of length D over the alphabet for both loops (quick n=2 '
-        'D=4: 2 x 12^4; thorough n=2 D=5: 2 x 12^5 and n=3 D=4: 2 x 18^4).  '
+        'sequence of length D over the alphabet of each loop (quick n=2 '
+        'D=4: 20^4 + 12^4; thorough n=2 D=5: 20^5 + 12^5 and n=3 D=4: 30^4 '
+        '+ 18^4).  '
         'After every operation: load() calls of every handle during the '
         'operation == what the documented order (clear the handle being '
         'left, clear the target, then access the target) asks for, i.e. '
@@ -116,7 +154,17 @@ RULE = ('Operations: h(), m["r/k"], m["r"]["k"], s.r.k, s["r"]["k"], '
         'object of its epoch; loop.current_world_handle is the handle last '
         'switched to, evaluating it while cached does not load and returns '
         'the object of its epoch, which is loop.current_world unless the '
-        'handle was cleared from outside since the switch.')
+        'handle was cleared from outside since the switch.  A switch '
+        'request is judged on the order of the load() / clear() calls of '
+        'every handle during the operation: never two load() of a handle '
+        'without a clear() of it in between (counting the load of its '
+        'running epoch), no load() of a handle that is not the target, a '
+        'target that held a world and was to be cleared (clear_next, or '
+        'clear_current when it is the handle being left) is cleared and '
+        'loaded again, a target that was not to be cleared is loaded once '
+        'if it was not cached and not touched otherwise; the state oracle '
+        'then asks cached == False of a left handle that was to be '
+        'cleared.')
 
 VALUES = ('none', 'zero', 'empty_str', 'empty_list', 'object', 'eq_false',
           'eq_raises', 'bool_raises', 'eq_true', 'eq_nonbool', 'finaliser')
@@ -910,30 +958,50 @@ class BareLoop(desper.Loop):
 
 
 class WorldCountingHandle(desper.Handle):
-    """Real Handle; load() returns a fresh real World and counts."""
+    """Real Handle; load() returns a fresh real World and counts.  clear()
+    is the real one, noted in the trace first: an operation that spans
+    several clears and loads (a switch request) is judged on their order."""
 
     def __init__(self, index):
         self.hx_index = index
         self.hx_calls = 0           # load() calls ever
         self.hx_all = []            # every world ever loaded (kept alive)
+        self.hx_trace = []          # 'L' / 'C': load() and clear() calls
 
     def load(self):
         self.hx_calls += 1
+        self.hx_trace.append('L')
         world = desper.World()
         self.hx_all.append(world)
         return world
 
+    def clear(self):
+        self.hx_trace.append('C')
+        return super().clear()
 
-def loop_ops(n):
+
+# loops that catch SwitchWorld themselves ("supported by SimpleLoop and
+# similar implementations"): only they get the switch requests
+REQUEST_LOOPS = ('simple',)
+_LOOP_LETTERS = ('abcdefghijklmnopqrstuvwxyz'
+                 'ABCDEFGHIJKLMNOPQRSTUVWXYZ')
+
+
+def loop_ops(n, kind='bare'):
     """The alphabet over n handles, simplest first."""
     ops = [('call', i) for i in range(n)]
     ops += [('clear', i) for i in range(n)]
     ops += [('switch', i, cc, cn) for cc, cn in LOOP_FLAGS for i in range(n)]
+    if kind in REQUEST_LOOPS:
+        ops += [('request', i, cc, cn) for cc, cn in LOOP_FLAGS
+                for i in range(n)]
     return ops
 
 
-def loop_letters(n):
-    return {chr(ord('a') + k): op for k, op in enumerate(loop_ops(n))}
+def loop_letters(n, kind='bare'):
+    """Letter -> operation; the letters of the bare loop mean the same
+    operation on every loop (older replay records)."""
+    return dict(zip(_LOOP_LETTERS, loop_ops(n, kind)))
 
 
 def loop_part_name(kind, n):
@@ -948,6 +1016,9 @@ class LoopDriver:
     (index of the handle last switched to), fresh (cur was not cleared
     since that switch).  switch(h, clear_current, clear_next), as documented:
     clear the handle being left if asked, clear h if asked, then access h.
+    A request (desper.switch + the loop's handling of SwitchWorld, SimpleLoop
+    only) has the same model; see ``_judge_request`` for what is demanded
+    of its load() / clear() calls.
     """
 
     def __init__(self, kind, n):
@@ -956,13 +1027,18 @@ class LoopDriver:
         self.kind = kind
         self.n = n
         self.name = loop_part_name(kind, n)
-        self.alphabet = frozenset(loop_ops(n))
+        self.alphabet = frozenset(loop_ops(n, kind))
 
     def params(self):
         return dict(loop=self.kind, handles=self.n,
-                    ops=[list(op) for op in loop_ops(self.n)])
+                    ops=[list(op) for op in loop_ops(self.n, self.kind)])
 
     def initial(self):
+        if desper.default_loop.current_world is not None:
+            # desper.switch(from_world=None) falls back on it
+            raise HarnessError('desper.default_loop runs a world: the '
+                               'process-wide loop is not in its initial '
+                               'state')
         ctx = Ctx()
         ctx.hits = collections.Counter()
         ctx.loop = (desper.SimpleLoop(_no_clock) if self.kind == 'simple'
@@ -978,11 +1054,11 @@ class LoopDriver:
         return ctx
 
     def ops(self, ctx):
-        return loop_ops(self.n)
+        return loop_ops(self.n, self.kind)
 
     def _features(self, op, ctx=None, prev=None):
         f = dict(path='loop', loop=self.kind, op=op[0])
-        if op[0] == 'switch':
+        if op[0] in ('switch', 'request'):
             f['flags'] = LOOP_FLAGS[(op[2], op[3])]
             f['target'] = ('first' if prev is None else
                            'current' if prev == op[1] else 'other')
@@ -1009,6 +1085,7 @@ class LoopDriver:
         prev = ctx.cur
         f = ctx.last_features = self._features(op, ctx, prev)
         calls0 = [x.hx_calls for x in hs]
+        trace0 = [len(x.hx_trace) for x in hs]
         flags0 = [self._flag(ctx, j, f) for j in range(self.n)]
         # -- model: who is cleared, who is accessed
         cleared = [False] * self.n
@@ -1033,13 +1110,23 @@ class LoopDriver:
                 h.clear()
             elif kind == 'call':
                 got = h()
-            else:
+            elif kind == 'switch':
                 loop.switch(h, clear_current=op[2], clear_next=op[3])
+            else:
+                # what running code does (desper.switch) and what the
+                # loop does with it (the except clause of SimpleLoop.loop)
+                try:
+                    desper.switch(h, clear_current=op[2], clear_next=op[3],
+                                  from_world=loop.current_world)
+                except desper.SwitchWorld as ex:
+                    loop.switch(ex.world_handle, ex.clear_current,
+                                ex.clear_next)
         except Exception as exc:
             raise Violation(
                 'clear_raises' if kind == 'clear' else 'access_raises',
                 f'{self._show(op)} raised {type(exc).__name__}: {exc}', **f)
         loads = [x.hx_calls - c for x, c in zip(hs, calls0)]
+        traces = [''.join(x.hx_trace[k:]) for x, k in zip(hs, trace0)]
         # -- named shortcuts (decided on the model, before it is updated)
         if kind == 'call':
             ctx.hits['loop_handle_call_cached' if ctx.cached[i]
@@ -1047,8 +1134,34 @@ class LoopDriver:
         elif kind == 'clear':
             ctx.hits['loop_handle_clear_cached' if ctx.cached[i]
                      else 'loop_handle_clear_uncached'] += 1
-        else:
+        elif kind == 'switch':
             ctx.hits['loop_switch'] += 1
+        else:
+            ctx.hits['loop_request'] += 1
+            if prev is None:
+                ctx.hits['loop_request_first'] += 1
+                if op[3] and ctx.cached[i]:
+                    ctx.hits['loop_request_clear_next_cached'] += 1
+            elif prev == i and ctx.fresh:
+                if (op[2] or op[3]) and ctx.cached[i]:
+                    ctx.hits['loop_request_self_clear'] += 1
+                elif not op[2] and not op[3]:
+                    ctx.hits['loop_request_self_plain'] += 1
+            elif prev == i:
+                # the handle the loop runs was cleared from outside: the
+                # world being left is not the one the handle gives now
+                ctx.hits['loop_request_self_after_outside_clear'] += 1
+            else:
+                if op[3] and ctx.cached[i]:
+                    ctx.hits['loop_request_clear_next_cached'] += 1
+                if not op[3] and ctx.cached[i]:
+                    ctx.hits['loop_request_to_cached'] += 1
+                if op[2] and ctx.cached[prev]:
+                    ctx.hits['loop_request_other_clear_current'] += 1
+                if not op[2] and ctx.cached[prev]:
+                    ctx.hits['loop_request_leaves_cached'] += 1
+            if traces[i].count('L') > 1:
+                ctx.hits['loop_request_two_epochs_in_one_operation'] += 1
         if kind == 'switch':
             if prev is None:
                 ctx.hits['loop_switch_first'] += 1
@@ -1083,6 +1196,14 @@ class LoopDriver:
                 'cached_predicts_load',
                 f'h{i}.cached was {flags0[i]} before {self._show(op)} but '
                 f'load() ran {loads[i]} time(s)', **f)
+        # -- a switch request: several clears and loads of the target may
+        #    happen in the one operation (desper.switch and Loop.switch
+        #    share the work), so the order of its load() and clear() calls
+        #    is judged: never two load() without a clear() between them,
+        #    a load after the last clear that was asked for
+        if kind == 'request':
+            self._judge_request(ctx, op, f, cleared, traces)
+            expect = loads = [int('L' in tr) for tr in traces]
         # -- loads: at most one per clear-delimited epoch, exactly one if
         #    the epoch has an access
         for j in range(self.n):
@@ -1115,7 +1236,7 @@ class LoopDriver:
             if expect[i]:
                 ctx.epoch_obj[i] = h.hx_all[-1]
             ctx.cached[i] = True
-        if kind == 'switch':
+        if kind in ('switch', 'request'):
             ctx.cur = i
             ctx.fresh = True
         ctx.last = op
@@ -1128,13 +1249,54 @@ class LoopDriver:
                 + ('the object load() just produced' if expect[i] else
                    'what the earlier accesses of this epoch returned'), **f)
 
+    def _judge_request(self, ctx, op, f, cleared, traces):
+        i = op[1]
+        for j, tr in enumerate(traces):
+            cached = ctx.cached[j]
+            for ev in tr:
+                if ev == 'C':
+                    cached = False
+                elif cached:
+                    raise Violation(
+                        'load_once_per_epoch',
+                        f'{self._show(op)}: load() of h{j} ran again '
+                        f'without a clear() since its previous load (its '
+                        f'load / clear calls during the operation: {tr!r})',
+                        **f)
+                else:
+                    cached = True
+            if j != i and 'L' in tr:
+                raise Violation(
+                    'load_once_per_epoch',
+                    f'{self._show(op)}: load() of h{j} ran, which is not '
+                    'the target', **f)
+            if j != i:
+                continue        # (its clear: state oracle, cached flag)
+            if cleared[i] and ctx.cached[i] and 'C' not in tr:
+                raise Violation(
+                    'reload_after_clear',
+                    f'{self._show(op)}: h{i} held a world and was to be '
+                    'cleared, neither clear() nor load() of it ran: the '
+                    'world loaded before is entered again', **f)
+            if not cleared[i] and tr != ('' if ctx.cached[i] else 'L'):
+                raise Violation(
+                    'load_once_per_epoch',
+                    f'{self._show(op)}: no clear of h{i} was asked for, '
+                    f'its load / clear calls during the operation are '
+                    f'{tr!r}, expected '
+                    + ('none' if ctx.cached[i] else 'one load'), **f)
+
     def _show(self, op):
-        if op[0] == 'switch':
+        if op[0] in ('switch', 'request'):
             args = [f'h{op[1]}']
             if op[2]:
                 args.append('clear_current=True')
             if op[3]:
                 args.append('clear_next=True')
+            if op[0] == 'request':
+                return (f'desper.switch({", ".join(args)}, from_world='
+                        'loop.current_world) + the loop\'s handling of '
+                        'SwitchWorld')
             return f'loop.switch({", ".join(args)})'
         return f'h{op[1]}()' if op[0] == 'call' else f'h{op[1]}.clear()'
 
@@ -1227,7 +1389,7 @@ class LoopDriver:
             # attribute shares which world shows in the walk's back
             # references)
             graph = canon([ctx.loop] + ctx.hs, namer=namer,
-                          skip_attrs=('hx_all', 'hx_calls'))
+                          skip_attrs=('hx_all', 'hx_calls', 'hx_trace'))
         except CanonError as exc:
             ctx.hits['key_without_object_graph'] += 1
             graph = ('no-graph', str(exc))
@@ -1240,15 +1402,15 @@ LOOP_DEPTH = {'quick': ((2, 4),), 'thorough': ((2, 5), (3, 4))}
 
 def loop_history_cases(n, depth):
     import itertools
-    letters = sorted(loop_letters(n))
     return [(kind, n, ''.join(w)) for kind in LOOP_KINDS
-            for w in itertools.product(letters, repeat=depth)]
+            for w in itertools.product(list(loop_letters(n, kind)),
+                                       repeat=depth)]
 
 
 def run_loop_history(case):
     kind, n, word = case
     driver = LoopDriver(kind, n)
-    letters = loop_letters(n)
+    letters = loop_letters(n, kind)
     ctx = driver.initial()
     driver.check(ctx)
     for letter in word:
@@ -1326,12 +1488,16 @@ def run(tier, rep):
         'the "histories" part is bounded by its length D (quick 4, '
         'thorough 5 over all 9 operations; thorough also 6 over the 7 '
         'operations without the world-file accesses, part '
-        '"histories-basic"); the fixpoint parts carry the unbounded claim '
+        '"histories-basic"; layered shape: 3 / 4 over its 11 operations, '
+        'part "histories-layered"); the fixpoint parts carry the unbounded '
+        'claim '
         '(conditional on the key argument of DESIGN.md 2.5)',
         'Loop.switch(clear_*) (desper/loop.py, second anchor): driven on '
         'loops that are never started; handles load plain World() objects. '
-        'SwitchWorld raised by a processor of a running loop and '
-        'desper.switch() (events, dispatch flags) belong to C13.  After an '
+        'SwitchWorld raised by a processor of a running loop and the '
+        'events / dispatch flags of desper.switch() belong to C13 (the '
+        'clears and loads of a desper.switch() request: see "switch '
+        'requests").  After an '
         'explicit clear() of the handle the loop is running, '
         'loop.current_world keeps the scrapped world until the next switch: '
         'the statement is silent, accepted, nothing is demanded of '
@@ -1363,6 +1529,42 @@ def run(tier, rep):
         'per epoch, identical object).  Loaders that fail repeatedly, raise '
         'BaseException subclasses or re-enter their own handle are not in '
         'the alphabet',
+        'map shape "layered": two handles under the one name are made the '
+        'documented way (DirectoryResourcePopulator, nest_on_conflict, '
+        'applied twice; one file, so no listing order is involved; the '
+        'populator itself is the subject of C16 - a populator that does '
+        'not instantiate exactly two handles here is a harness error).  '
+        'Which of the two is the resource r/k is taken from the populator '
+        'docstring ("the new one will become the default value, but it '
+        'will always be possible to retrieve the shadowed one"): the '
+        'handle instantiated second.  The shadowed handle is driven '
+        'through the reference the rule handed out (no documented lookup '
+        'by name exists for it).  Demanded: every access by name (map, '
+        'static snapshot, world file) loads / returns the object of the '
+        'newer handle only, the two handles keep separate epochs.  The '
+        'snapshot is taken after both populator runs; one directory, one '
+        'file, two layers; deeper nesting and snapshots older than the '
+        'second run (C17) are not explored',
+        'switch requests: desper.switch() is called with from_world='
+        'loop.current_world (before the first switch that is None and '
+        'desper.switch falls back on desper.default_loop.current_world, '
+        'checked to be None), on a SimpleLoop that is never started; the '
+        'harness plays the except clause of SimpleLoop.loop.  That '
+        'clear_next clears the entered handle and clear_current the handle '
+        'being left (which, on a self switch, is the entered one) is taken '
+        'from the docstrings of switch() / Loop.switch ("If specified, the '
+        'handle being left and/or the handle being entered can be '
+        'cleared"); which of desper.switch / Loop.switch issues the clear, '
+        'and how often, is left open: accepted is any order of load() / '
+        'clear() calls in which no handle loads twice without a clear in '
+        'between and the target ends with a world loaded after the last '
+        'requested clear (on this tree a request that leaves a handle '
+        'cleared from outside clears and loads its target twice: hit '
+        'loop_request_two_epochs_in_one_operation).  Events, dispatch '
+        'flags and which instance receives on_switch_in belong to C13 '
+        '(overlap: C13 also asks for the fresh instance).  WorldCounting'
+        'Handle overrides clear() only to note the call before running '
+        'the real Handle.clear()',
         'world-file accesses: the harness clears the *world* handle before '
         'and after each of them (a world handle that kept its world would '
         'not resolve the reference again); what clear() does to a world is '
@@ -1390,7 +1592,27 @@ def run(tier, rep):
                      loop_switch_clear_next_cached=1,
                      loop_switch_to_cached=1,
                      loop_current_handle_cleared_outside=1,
-                     loop_world_is_handle_world=1)
+                     loop_world_is_handle_world=1,
+                     # map shape 'layered'
+                     layered_map_access=1, layered_static_access=1,
+                     layered_world_access=1,
+                     layered_static_loads_beside_cached_shadow=1,
+                     layered_map_loads_beside_cached_shadow=1,
+                     layered_world_loads_beside_cached_shadow=1,
+                     layered_static_cached_beside_uncached_shadow=1,
+                     layered_clear_one_of_two_cached=1,
+                     shadow_first_load=1, shadow_cache_hit=1,
+                     shadow_reload_after_clear=1, shadow_clear_cached=1,
+                     shadow_load_raises_once=1,
+                     # switch requests
+                     loop_request_first=1,
+                     loop_request_clear_next_cached=1,
+                     loop_request_self_clear=1,
+                     loop_request_self_plain=1,
+                     loop_request_to_cached=1,
+                     loop_request_other_clear_current=1,
+                     loop_request_leaves_cached=1,
+                     loop_request_self_after_outside_clear=1)
     saved = sys.modules.get(MOD)
     _ensure_env()
     try:
@@ -1412,7 +1634,10 @@ def run(tier, rep):
                 run_loop_history, cases, rep, f'loop-histories/{n}',
                 params=dict(length=depth, handles=n, loops=list(LOOP_KINDS),
                             letters={k: list(v) for k, v
-                                     in loop_letters(n).items()}),
+                                     in loop_letters(n, 'simple').items()},
+                            letters_per_loop={
+                                kind: ''.join(loop_letters(n, kind))
+                                for kind in LOOP_KINDS}),
                 chunk=max(200, len(cases) // 400))
         depth = DEPTH[tier]
         cases = history_cases(depth)
